@@ -692,4 +692,102 @@ example : ∀ i ∈ [In.subscribe 5, .seqUpdate 9 100 false true .record, .resta
 example : CursorOk true { p := 9, q := 9, dead := false } := by intro _ _; simp [eff]
 example : CursorOk false { p := 9, q := 17, dead := false } := by intro _ _; simp [eff]
 
+/-! ### the batch loop of getTxReceipts / getEVMEvent after fix 87f57a6 (same size rule as getBlockSeqs) -/
+
+/-- **No matching block is left out of a batch**: the payload holds exactly the matching blocks among the
+`count` blocks the batch goes over (`updateSeq = startSeq + count - 1`) — whatever the sizes, in particular
+when a block makes the batch exactly `maxSize`. -/
+theorem batch_delivers_every_matching_block (M : Nat) (l : List Blk) :
+    (batchNew M {} l).incl = matchPos 0 (l.take (batchNew M {} l).count) := by
+  simpa using batchNew_incl M l {}
+
+/-- **Progress**: a non-empty range is advanced over by at least one block (`updateSeq ≥ startSeq`). -/
+theorem batch_progress (M : Nat) (l : List Blk) (hl : l ≠ []) : 1 ≤ (batchNew M {} l).count := by
+  simpa using batchNew_progress_from M l {} rfl hl
+
+/-- **The first matching block of a range is always sent**, whatever its size (no bound on `sz`: also
+larger than `maxSize`). -/
+theorem batch_first_match_sent (M : Nat) (l : List Blk) (hm : ∃ sz, some sz ∈ l) : (batchNew M {} l).incl ≠ [] :=
+  batchNew_first_match_from M l {} rfl hm
+
+/-- **Liveness step: a range whose first matching block is oversize is posted.**  A task that is due
+(`sleep ≤ 1`) and behind (`0 < last < latest`) posts the range starting at `last+1` whenever the range holds
+a matching block of ANY size. -/
+theorem oversize_first_block_is_posted (c : Cfg) (t : Task) (latest : Int) (M : Nat) (l : List Blk) (ok : Bool)
+    (after : After) (hr : t.running = true) (hs : t.sleep ≤ 1) (hl : 0 < t.last) (hlt : t.last < latest)
+    (hm : ∃ sz, some sz ∈ l) :
+    ∃ b es, (step c t (.ofBatch latest (batchNew M {} l) ok after)).2 = .post (t.last + 1) b ok :: es := by
+  have h1 : ¬ t.sleep > 1 := by omega
+  have h2 : ¬ t.last ≥ latest := by omega
+  have h3 : ¬ t.last ≤ 0 := by omega
+  have he : (batchNew M {} l).incl.isEmpty = false := by
+    have := batch_first_match_sent M l hm
+    cases h : (batchNew M {} l).incl with
+    | nil => exact absurd h this
+    | cons _ _ => rfl
+  simp only [In.ofBatch, step, hr, h1, h2, h3, he, Bool.not_true, Bool.false_eq_true, if_false]
+  cases ok with
+  | true =>
+    cases after with
+    | record => exact ⟨_, _, rfl⟩
+    | storeFail => exact ⟨_, _, rfl⟩
+    | crash => exact ⟨_, _, rfl⟩
+  | false =>
+    simp only [Bool.false_eq_true, if_false]
+    split <;> exact ⟨_, _, rfl⟩
+
+/-- **The loop never stalls under the new size rule**: for a non-empty range no pass ends with
+`updateSeq = startSeq-1`. -/
+theorem new_size_rule_never_stalls (c : Cfg) (hc : 1 ≤ c.maxSeq) (t : Task) (latest : Int) (M : Nat) (l : List Blk)
+    (ok : Bool) (after : After) (hl : l ≠ []) :
+    Ev.stalled ∉ (step c t (.ofBatch latest (batchNew M {} l) ok after)).2 := by
+  have hp := batch_progress M l hl
+  have hc1 : (1 : Int) ≤ (c.maxSeq : Int) := by exact_mod_cast hc
+  simp only [In.ofBatch, step]
+  split
+  · simp
+  · split
+    · simp
+    · split
+      · simp
+      · split
+        · simp
+        · rename_i h2 h3
+          split
+          · split
+            · rename_i hn
+              have : (1 : Int) ≤ ((batchNew M {} l).count : Int) := by exact_mod_cast hp
+              omega
+            · simp
+          · split
+            · cases after with
+              | record => simp
+              | storeFail => simp
+              | crash => simp only [reboot]; split <;> simp
+            · split <;> simp
+
+/-- a task registered with resume point 5 (the state the regression witnesses start from). -/
+def afterSubscribe5 : Task := (run { maxSeq := 100 } {} [.subscribe 5]).1
+
+/-- **Regression witness (the loop before the fix):** with `maxSize = 100`, blocks of sizes 10, 90, 10 —
+the second makes the batch exactly `maxSize` — the old loop went over all three and appended only the
+first and the third (the block was dropped, finding `block-dropped-when-batch-size-equals-limit`); the new
+loop ends the batch before it. -/
+theorem old_size_rule_drops_exact_fit :
+    batchOld 100 {} [some 10, some 90, some 10] = { total := 20, incl := [0, 2], count := 3 } ∧
+    batchNew 100 {} [some 10, some 90, some 10] = { total := 10, incl := [0], count := 1 } := by decide
+
+/-- **Regression witness (the loop before the fix):** a first block larger than `maxSize` made the old loop
+answer `(nil, startSeq-1)` and the task stalled (finding `oversize-block-stalls-subscriber`); under the new
+rule the block is posted alone. -/
+theorem old_size_rule_stalls_on_oversize :
+    batchOld 100 {} [some 101, some 10] = {} ∧
+    (step { maxSeq := 100 } afterSubscribe5 (.ofBatch 7 (batchOld 100 {} [some 101, some 10]) true .record)).2 = [.stalled] ∧
+    (step { maxSeq := 100 } afterSubscribe5 (.ofBatch 7 (batchNew 100 {} [some 101, some 10]) true .record)).2 =
+      [.post 6 6 true, .persisted 6] := by decide
+
+/-- non-vacuity of the batch theorems' hypotheses. -/
+example : ∃ sz, some sz ∈ ([none, some 2000000, some 10] : List Blk) := ⟨10, by simp⟩
+example : batchNew 1048576 {} [none, some 2000000, none, some 10] = { total := 2000000, incl := [1], count := 3 } := by decide
+
 end C32
